@@ -47,4 +47,8 @@ for f in files:
         if sp.get("tier"): r["tier"] = sp["tier"]
         if sp.get("replay"): r["replay"] = sp["replay"]
         runs.append(r)
+if "--only" in sys.argv:          # another property reusing some of these contract runs under its own ids
+    keep = set(sys.argv[sys.argv.index("--only") + 1].split(",")); pref = sys.argv[sys.argv.index("--prefix") + 1]
+    runs = [r for r in runs if r["id"].split(".")[-1] in keep]
+    for r in runs: r["id"] = r["id"].replace("C02.", pref + ".via.C02.", 1); r["what"] = "(run shared with C02) " + r["what"]
 print(json.dumps(runs))
